@@ -12,6 +12,7 @@ import (
 	"sort"
 	"strconv"
 	"strings"
+	"syscall"
 
 	"github.com/hedzr/is"
 	"github.com/hedzr/logg/slog"
@@ -369,9 +370,6 @@ func c02Run(in c02Input, snap *slog.VerifRegistry) (o c02Obs) {
 	for _, a := range in.Own {
 		o.OwnVals = append(o.OwnVals, a.Go())
 	}
-	if len(o.OwnVals) > 0 {
-		e.Set(o.OwnVals...)
-	}
 	for _, a := range in.Args {
 		o.Vals = append(o.Vals, a.Go())
 	}
@@ -382,6 +380,19 @@ func c02Run(in c02Input, snap *slog.VerifRegistry) (o c02Obs) {
 		o.ErrDev = append(o.ErrDev, int(l))
 	}
 	sort.Ints(o.ErrDev)
+	if len(o.OwnVals) > 0 {
+		func() { // Set(...) goes through the same argument handling as a log call
+			defer func() {
+				if rec := recover(); rec != nil {
+					o.Panic = fmt.Sprintf("in logger.Set(own...): %v", rec)
+				}
+			}()
+			e.Set(o.OwnVals...)
+		}()
+		if o.Panic != "" {
+			return
+		}
+	}
 	ep := entryPoint{in.Recv, in.Name, in.Sev, in.EPKind}
 	events = nil
 	stdDelta()
@@ -779,6 +790,11 @@ func c02Term(in c02Input, o c02Obs) (term string, ok bool) {
 
 // ---- one case: run, judge, shrink on failure, register ----
 func c02One(r *Run, snap *slog.VerifRegistry, in c02Input, runeSet map[rune]bool) {
+	defer func() { // nothing of the library may take the harness down: a panic outside the guarded call is a finding too
+		if rec := recover(); rec != nil {
+			r.Fail("C02/panic", fmt.Sprintf("panic outside the guarded call while running %s.%s: %v", in.Recv, in.Name, rec), c02Case{In: in, Panic: fmt.Sprint(rec)})
+		}
+	}()
 	o := c02Run(in, snap)
 	vs, notes := c02JudgeRefined(in, o, snap)
 	for _, n := range notes {
@@ -1316,12 +1332,16 @@ func replayC02(r *Run, file string) {
 	var c c02Case
 	loadReplay(file, &c)
 	snap := slog.VerifSnapshot()
+	out1, err := syscall.Dup(1) // the verdict of the replay goes to the real stdout
+	must(err)
 	captureStd(r.Out)
 	eps := c02EntryPoints(snap)
 	c02Calibrate(snap, eps)
 	runeSet := map[rune]bool{}
 	c.In.Kind = "replay"
 	c02One(r, snap, c.In, runeSet)
+	must(syscall.Dup3(out1, 1, 0))
+	must(syscall.Dup3(int(diag.Fd()), 2, 0))
 	r.Coq(c02Header, "case", "(ok isp)")
 	r.Prelude(isprintPrelude(runeSet))
 	resetProcess(snap)
